@@ -16,7 +16,7 @@ E == Trace[l]
 IsEv(e) == l <= Len(Trace) /\ Trace[l].ev = e /\ l' = l + 1
 
 ToSet(q)  == {q[i] : i \in 1..Len(q)}
-Chg(c)    == [s |-> c.s, info |-> c.info, add |-> ToSet(c.add), set |-> ToSet(c.set), rem |-> ToSet(c.rem)]
+Chg(c)    == [s |-> c.s, info |-> c.info, ic |-> c.ic, add |-> ToSet(c.add), set |-> ToSet(c.set), rem |-> ToSet(c.rem)]
 Wk(w)     == [s |-> w.s, put |-> ToSet(w.put), del |-> ToSet(w.del)]
 \* folder image of an event -> folder record of the specification
 SideInfo(x, s) == IF \E i \in 1..Len(x.stores) : x.stores[i].s = s
@@ -37,7 +37,7 @@ TraceReset == /\ IsEv("Reset")
               /\ fold' = [i \in 1..2 |-> EmptyFold]
               /\ mem' = Det(FALSE, 1, FALSE) /\ l2' = Det(FALSE, 1, FALSE)
               /\ rs' = [i \in 1..2 |-> NoRS] /\ newer' = 0
-              /\ txn' = [t \in Txns |-> [st |-> "idle", failed |-> FALSE, act |-> 1, logging |-> FALSE]]
+              /\ txn' = [t \in Txns |-> NoTxn]
               /\ logs' = <<>> /\ cinfo' = [i \in 1..2 |-> [s \in Stores |-> NoInfo]]
               /\ rein' = [pc |-> "idle", todo |-> <<>>]
               /\ content' = [s \in Stores |-> {}] /\ used' = {}
@@ -52,6 +52,12 @@ TraceCommit == /\ IsEv("Commit")
                      Commit(E.t, sn, {Chg(E.chs[i]) : i \in 1..Len(E.chs)}, {Wk(E.work[i]) : i \in 1..Len(E.work)},
                             E.ok, E.pf, E.hit, ToFold(E.pafter))
                /\ mem' = MemIs(E.mem)
+\* a B-tree operation inside a transaction failed: only explicable for a transaction that still reads the folder
+\* it copied at creation while the active folder has moved on
+TraceWorkFailed == /\ IsEv("WorkFailed")
+                   /\ Has("staleSnapshot") /\ txn[E.t].st = "open" /\ Snap(E.t) # Cur
+                   /\ used' = used \cup {"staleSnapshot"}
+                   /\ UNCHANGED <<fold, mem, l2, rs, newer, txn, logs, cinfo, rein, content>>
 TraceDrop   == IsEv("Drop") /\ Drop(E.s, E.ok, E.pf) /\ mem' = MemIs(E.mem)
 TraceWipe   == IsEv("Wipe") /\ Wipe
 TraceFailover == IsEv("Failover") /\ Failover(E.ok) /\ mem' = MemIs(E.mem)
@@ -67,6 +73,7 @@ TraceReinDone ==
   /\ \/ E.ok /\ ReinDone
      \/ ~E.ok /\ E.phase = "precondition" /\ rein.pc = "idle" /\ ~mem.failed /\ UNCHANGED vars
      \/ ~E.ok /\ E.phase \in {"ff", "ff2"} /\ ReinFFFails(E.phase, ToFold(E.p))
+     \/ ~E.ok /\ E.phase = "copy" /\ ReinCopyFails(ToFold(E.p))
   /\ mem' = MemIs(E.mem)
 
 \* independent reader: both folders, the details in memory, both status files, pending logs
@@ -102,10 +109,10 @@ TraceApiDump ==
   /\ UNCHANGED vars
 
 \* last line of every trace: report the finding branches this run needed (one line per surviving branch)
-TraceEnd == IsEv("End") /\ PrintT(<<"USED", E.name, used>>) /\ UNCHANGED vars
+TraceEnd == IsEv("End") /\ PrintT("USED " \o E.name \o " " \o ToString(used)) /\ UNCHANGED vars
 
 TraceNext ==
-  /\ \/ TraceEnd \/ TraceReset \/ TraceBegin \/ TraceCreate \/ TraceCommit \/ TraceDrop \/ TraceWipe \/ TraceFailover
+  /\ \/ TraceEnd \/ TraceReset \/ TraceBegin \/ TraceCreate \/ TraceCommit \/ TraceWorkFailed \/ TraceDrop \/ TraceWipe \/ TraceFailover
      \/ TraceReinBegin \/ TraceReinStartLog \/ TraceReinCopyList \/ TraceReinCopyStore \/ TraceReinFF
      \/ TraceReinTurnOn \/ TraceReinDone \/ TraceObserve \/ TraceApiDump
   /\ UNCHANGED mc
